@@ -517,7 +517,23 @@ def judge_crash(a, impl):
     return "the implementation brought the process down (" + impl[:200] + ") while executing: " + pend[:300]
 
 
-JUDGES = {"crash.detected": judge_crash, "fault.trk.http_announce": judge_fault, "fault.trk.udp": judge_fault, "fault.trk.http_scrape": judge_fault, "cfg.validate": judge_cfg_validate, "wedge.detected": judge_wedge, "vi.check": judge_vi_check, "vi.handle": judge_vi_handle, "trk.http_announce": judge_trk, "trk.udp": judge_trk, "trk.http_scrape": judge_trk}
+def judge_redis_sched(a, impl):
+    """C17, last sentence, on the implementation alone: the Redis counters (what populateProm exports) at the point where
+    the scheduled prefix of the round trips stops."""
+    if a.get("_pid") != "C17":
+        return None
+    m = re.search(r"mid=.*?counters=\[([-0-9,]*)\]", impl)
+    if not m:
+        return None
+    vals = [int(x) for x in m.group(1).split(",") if x]
+    if any(v < 0 for v in vals):
+        names = ["IPv4_infohash_count", "IPv4_S_count", "IPv4_L_count", "IPv6_infohash_count", "IPv6_S_count", "IPv6_L_count"]
+        neg = ", ".join(f"{n}={v}" for n, v in zip(names, vals) if v < 0)
+        return "a Redis counter is negative while operations are in flight (the counter commands follow the membership commands in round trips of their own): " + neg
+    return None
+
+
+JUDGES = {"st.redis_sched": judge_redis_sched, "crash.detected": judge_crash, "fault.trk.http_announce": judge_fault, "fault.trk.udp": judge_fault, "fault.trk.http_scrape": judge_fault, "cfg.validate": judge_cfg_validate, "wedge.detected": judge_wedge, "vi.check": judge_vi_check, "vi.handle": judge_vi_handle, "trk.http_announce": judge_trk, "trk.udp": judge_trk, "trk.http_scrape": judge_trk}
 
 
 def matches(finding, failing):
